@@ -387,6 +387,44 @@ def value_sets(fn, subject, universe, kill=None):
     return IN
 
 
+def inline_predicates(P, fn, x, _memo=None):
+    """x with every call `name()` of a local predicate lambda replaced by the expression the lambda returns.  Only where that is exact:
+    the lambda is a local of fn declared once (`auto name = [..]{ return E; }`, never reassigned), takes no parameters, its body is the
+    single return, and every variable it captures BY COPY is never assigned in fn (so the copy taken at the declaration is the value at the
+    call); variables captured by reference have the same name and the same storage inside and outside.  `if (tLow < t && t < tHigh)` and
+    `auto inside = [&]{ return tLow < t && t < tHigh; }; if (inside())` are then the same condition for every rule that reads conditions."""
+    if not isinstance(x, list):
+        return x
+    if _memo is None:
+        _memo = {}
+        assigned = {var_of(e["lhs"]) for _, _, e in fn.events(lambda e: e["k"] == "assign" and e["lhs"] and e["lhs"][0] == "var")}
+        caps = {e["name"]: e.get("caps") for _, _, e in fn.events(lambda e: e["k"] == "lambda")}
+        decls = {}
+        for _, _, d in fn.events(lambda d: d["k"] == "decl"):
+            decls.setdefault(d["var"], []).append(d)
+        for v, ds in decls.items():
+            if len(ds) != 1 or v in assigned:
+                continue
+            ini = ds[0].get("init")
+            if not (isinstance(ini, list) and len(ini) == 2 and ini[0] == "lambda"):
+                continue
+            gs = [g for g in P.fns.values() if g.id.startswith(ini[1] + "(")] if isinstance(P.fns, dict) else [g for g in P.fns if g.id.startswith(ini[1] + "(")]
+            if len(gs) != 1 or gs[0].d.get("params"):
+                continue
+            g = gs[0]
+            rets = [e for _, _, e in g.events(lambda e: e["k"] == "ret")]
+            other = [e for _, _, e in g.events(lambda e: e["k"] in ("assign", "decl", "throw"))]
+            cp = caps.get(ini[1])
+            if len(rets) != 1 or rets[0].get("val") is None or other or cp is None:
+                continue
+            if any(m == "copy" and n in assigned for n, m in cp):
+                continue
+            _memo[v] = rets[0]["val"]
+    if len(x) == 3 and x[0] == "opc" and x[1] == "()" and isinstance(x[2], list) and len(x[2]) == 2 and x[2][0] == "var" and x[2][1] in _memo:
+        return _memo[x[2][1]]
+    return [inline_predicates(P, fn, y, _memo) for y in x]
+
+
 def subst(x, env):
     """s-expression x with every ["var", name] whose name is in env replaced by env[name]"""
     if not isinstance(x, list):
